@@ -531,7 +531,9 @@ func runC11(w *azWorld) {
 			typ = typ[:at] + odd + typ[at:]
 			c.Probe("keygen-type-with-characters-that-name-no-permission")
 		}
-		ttl := []int{0, 20, 200, -30}[t.Choose(4)] // a negative ttl asks for a key that has already expired
+		// a negative ttl asks for a key that has already expired; the extremes are what a 32-bit ttl can ask for
+		// (decades into the past: before the epoch of the key format; decades ahead)
+		ttl := []int{0, 20, 200, -30, 0, 20, 200, -30, -600000000, -2000000000, 2147483647}[t.Choose(11)]
 		var chanLv []string
 		chanStr := ""
 		badChan := false
@@ -648,7 +650,12 @@ func runC11(w *azWorld) {
 		if !k.Expires().Equal(time.Unix(0, 0).UTC()) {
 			gotExp = k.Expires().Unix()
 		}
-		if gotExp != wantExp && !(ttl != 0 && gotExp-wantExp >= 0 && gotExp-wantExp <= 1) {
+		if ttl < -1000 {
+			// so far in the past that the key format may not be able to say when: any date that has passed will do
+			if gotExp == 0 || gotExp >= reqAt.Unix() {
+				c.Check("expiry", fmt.Sprintf("ttl=%d", ttl), "a key requested with ttl %d at simulated second %d (expired long ago) expires at %d", ttl, reqAt.Unix(), gotExp)
+			}
+		} else if gotExp != wantExp && !(ttl != 0 && gotExp-wantExp >= 0 && gotExp-wantExp <= 1) {
 			c.Check("expiry", fmt.Sprintf("ttl=%d", ttl), "derived key expires at %d, requested ttl %d at simulated second %d", gotExp, ttl, reqAt.Unix())
 		}
 		// target: exactly the requested channel (extension: channel + connection id)
@@ -737,7 +744,7 @@ func runC11(w *azWorld) {
 				}
 			}
 		}
-		if ttl > 0 && t.Chance(1, 3) && staticUse && ki.Perms&model.PermWrite != 0 && k.Permissions()&security.AllowExtend == 0 {
+		if ttl > 0 && ttl < 100000 && t.Chance(1, 3) && staticUse && ki.Perms&model.PermWrite != 0 && k.Permissions()&security.AllowExtend == 0 {
 			w.advance(time.Duration(ttl+3) * time.Second)
 			if w.publishOK(cl, r.Key, useLv) {
 				c.Check("expiry", "use-after", "derived key with ttl %d is still accepted %d s after it was issued", ttl, ttl+3)
